@@ -24,7 +24,9 @@ var tmpN int
 
 func tmp(p string) *ast.Ident { tmpN++; return ast.NewIdent(fmt.Sprintf("_vs%s%d", p, tmpN)) }
 
-func sel(x, s string) *ast.SelectorExpr { return &ast.SelectorExpr{X: ast.NewIdent(x), Sel: ast.NewIdent(s)} }
+func sel(x, s string) *ast.SelectorExpr {
+	return &ast.SelectorExpr{X: ast.NewIdent(x), Sel: ast.NewIdent(s)}
+}
 func call(f ast.Expr, a ...ast.Expr) *ast.CallExpr { return &ast.CallExpr{Fun: f, Args: a} }
 
 func isChan(e ast.Expr) bool {
@@ -53,6 +55,9 @@ func rewriteExpr(e ast.Expr) ast.Expr {
 		x.Fun = rewriteExpr(x.Fun)
 		for i := range x.Args {
 			x.Args[i] = rewriteExpr(x.Args[i])
+		}
+		if id, ok := x.Fun.(*ast.Ident); ok && id.Name == "verifMark" && len(x.Args) == 0 {
+			return call(sel("vsched", "Mark"))
 		}
 		if id, ok := x.Fun.(*ast.Ident); ok && id.Name == "verifWaitIdle" && len(x.Args) == 0 {
 			return call(sel("vsched", "WaitIdle"))
